@@ -111,7 +111,7 @@ def gen(ctx, methods):
             elif r < 0.70:
                 op = "b64"
             elif r < 0.76:
-                op = "ws:" + str(rnd.choice([0, 1, 2, 5]))
+                op = "ws:" + str(rnd.choice([0, 1, 2, 5, 5, 1 << 61, 1 << 62, 1 << 63, USIZE_MAX, USIZE_MAX // 2]))
             elif r < 0.90:
                 op = "e:" + (typed[i % len(typed)] if rnd.random() < 0.5 else rnd.choice(typed))
             elif r < 0.94:
